@@ -39,7 +39,8 @@ extern void (*verif_async_yield) (int point, void *worker);
 #endif
 
 #define LIVE_MS 60000
-#define TICK_MS 15000		/* liveness bound for a due timer tick */		/* liveness bound of every wait-for-condition (never a verdict by itself) */
+#define TICK_MS 4000		/* liveness bound for a due timer tick (waited for at most once per case) */
+#define MT_LIVE_MS 30000	/* liveness bound of a multi-thread run (they take well under a second) */		/* liveness bound of every wait-for-condition (never a verdict by itself) */
 #define POLL_MS 10		/* poll interval of the timed join (async_worker_pthread.c) */
 
 /* Timing rules of this harness (the check runs on busy machines):
@@ -844,6 +845,7 @@ static platform_timer_t tm;
 static int tm_inited;
 static unsigned long tm_interval_ms;
 static volatile int tm_count;
+static int tick_dead;		/* a due tick did not come within TICK_MS: do not wait again in this case */
 static unsigned long tm_slept;	/* ms slept while the timer was active since the last tticks / start / stop */
 
 static void tm_callback (void)
@@ -907,7 +909,10 @@ static int timer_cmd (char **tok, int n)
       /* a tick is due (the timer was active for >= 10 intervals): on a slow machine the timer thread may not have
        * been scheduled yet - wait for the tick itself, the time slept is no verdict */
       if (tm_inited && platform_timer_is_active (&tm) && tm_slept >= 10 * tm_interval_ms && tm_slept > 0)
-        wait_flag (&tm_count, TICK_MS);
+        {
+          if (!tick_dead && !wait_flag (&tm_count, TICK_MS))
+            tick_dead = 1;
+        }
       c = __atomic_exchange_n (&tm_count, 0, __ATOMIC_ACQ_REL);
       /* too short a sleep to promise a tick: the class is not determined by the schedule */
       int amb = tm_inited && platform_timer_is_active (&tm) && tm_slept > 0 && tm_slept < 10 * tm_interval_ms;
@@ -1014,7 +1019,7 @@ static void mt_post (int nprod, int nper, int maxev, uint64_t seed)
       pr[i].id = i, pr[i].nper = nper, pr[i].seed = seed * 131 + i, pr[i].refused = 0, pr[i].done = 0, pr[i].gen = 0;
       pthread_create (&th[i], 0, post_producer, &pr[i]);
     }
-  deadline = now_ms () + 2 * LIVE_MS;	/* liveness only: producers stuck */
+  deadline = now_ms () + MT_LIVE_MS;	/* liveness only: producers stuck */
   int empty_after_done = 0, stuck = 0;
   while (got + lost < total && now_ms () < deadline)
     {
@@ -1146,7 +1151,7 @@ static void mt_queue (int flags, int cap, int nprod, int nper, uint64_t seed)
       pr[i].id = i, pr[i].nper = nper, pr[i].seed = seed * 977 + i, pr[i].retry = exact, pr[i].done = 0;
       pthread_create (&th[i], 0, queue_producer, &pr[i]);
     }
-  deadline = now_ms () + 2 * LIVE_MS;	/* liveness only: producers stuck */
+  deadline = now_ms () + MT_LIVE_MS;	/* liveness only: producers stuck */
   int joined = 0;
   for (;;)
     {
@@ -1490,7 +1495,7 @@ int main (int argc, char **argv)
 {
   const char *scratch = "/tmp";
   const char *keepdir = 0;
-  int timeout = 240;
+  int timeout = 150;
   char *line;
   for (int i = 1; i < argc; i++)
     {
